@@ -60,6 +60,13 @@ CHECKS = {
             "universe construction (realisability) and the checker's own notion of 'accepted where expected' (can_fit_into + zero-sized->type)",
             "runtime monitoring: algebraic-law oracle over enumerated inputs of the real relations + metamorphic (swapped-branch) CLI executions",
             "probe+cli", "4/C12"),
+    "C08": ("exploration",
+            "a systematic (type, operator, operand) matrix over all 12 integer types, f32/f64, bool and char (9x9 boundary grids, all shift amounts, "
+            "unary ops, comparisons, every cast pair incl. int<->float around 2^24/2^53/2^63/2^64) is compiled by the real CLI; each result is observed "
+            "as raw bytes at run time (operands via function parameters) and inside comptime, and compared with a big-integer/IEEE model.",
+            "trusts python's integer and IEEE double arithmetic and gcc's linking of rt/vr_rt.c; float operands are restricted to exactly representable decimals",
+            "runtime monitoring: reference-model oracle over a systematic operand matrix executed by the compiled programs (run time and comptime)",
+            "cli", "4/C08"),
 }
 
 NOT_YET = "check not built yet in this round (work in progress; see DESIGN.md section 4 for the plan)"
